@@ -483,6 +483,8 @@ def rfc6901(doc, pointer: str):
         elif isinstance(doc, list):
             if not re.fullmatch(r"0|[1-9][0-9]*", token, flags=re.ASCII) or not token.isascii():
                 raise PointerError("bad index")
+            if len(token) > 18:  # far beyond any list here (and int() refuses more than 4300 digits)
+                raise PointerError("out of range")
             i = int(token)
             if i >= len(doc):
                 raise PointerError("out of range")
@@ -657,11 +659,6 @@ def expr_region(e: str, c) -> str:
             if not x[0].endswith("body") and len(x) == 3:
                 if x[1] == "" or set(x[1]) & NAME_CHARS_STOP or (x[2] is not None and "}" in x[2]):
                     return "valid_rejected"
-    for kind, x in items:
-        if kind == "expr" and x[0].endswith("body") and x[1]:
-            return "pointer_lenient"
-    if len(items) == 1 and items[0][0] == "expr" and e.startswith("{"):
-        return None
     return None
 
 
@@ -670,7 +667,7 @@ def run(chk: core.Check):
     quick = chk.tier == "quick"
     chk.trusted = [
         "Coq 8.16.1 kernel, vm_compute (witness lemmas, finite closures over the 1728 well-formed response keys, model evaluation); no axioms",
-        "hand-written model theories/C10/Model_C10.v of expressions.lexer/parser/nodes/evaluate, transforms.resolve_pointer incl. Python int(), "
+        "hand-written model theories/C10/Model_C10.v of expressions.lexer/parser/nodes/evaluate, transforms.resolve_pointer (as repaired by 5f4626e6 and 6e969657; the int()-lenient one kept as a sentinel), Python int() for status keys, "
         "stateful make_response_filter/matcher, links.extract_*, into_step_input merge, get_parameters_value",
         "correspondence harness harness/props/c10.py (encoders, Coq output parser, canonicalisers, generators, regex tables computed with module re)",
         "reference semantics: RFC 6901 (Model rfc6901 + strict Python evaluator here, compared with each other), OpenAPI runtime-expression ABNF "
@@ -799,12 +796,6 @@ def stage_expressions(chk, rng, n):
             stats["reference_agrees"] += 1
             continue
         region = expr_region(e, c)
-        if region == "pointer_lenient":
-            # must really be a leniency: strict RFC says unresolvable, implementation resolves
-            if not (ref == ("value", UNRES) and i_eval[0] == "value"):
-                items = ref_parse_value(e)
-                if not (len(items) > 1):
-                    region = None
         chk.fail("evaluate differs from the denotation of the expression", canon, {"implementation": i_eval, "reference": ref}, region=region)
     chk.stages["correspondence_expressions"] = {**stats, "corpus": n_corpus}
 
@@ -867,36 +858,50 @@ def stage_pointers(chk, rng, n):
     while len(cases) < n + n_corpus:
         doc = gen_doc(rng)
         cases.append((doc, gen_pointer(rng, doc)))
-    exprs = [f"(resolve_pointer {cjson(d)} {cstr(p)}, of_opt (rfc6901 {cjson(d)} {cstr(p)}), lenient_hit {cjson(d)} {cstr(p)} || negb (valid_escapes {cstr(p)}))" for d, p in cases]
+    exprs = [f"(resolve_pointer {cjson(d)} {cstr(p)}, of_opt (rfc6901 {cjson(d)} {cstr(p)}), valid_escapes {cstr(p)}, "
+             + (f"resolve_pointer_int_lenient {cjson(d)} {cstr(p)})" if len(p) < 200 else "VUnres)") for d, p in cases]
     model = coq_eval(exprs)
-    stats = {"cases": len(cases), "corpus": n_corpus, "resolved": 0, "lenient": 0, "rfc_agree": 0}
-    for (d, p), (m_res, m_rfc, m_len) in zip(cases, model):
+    stats = {"cases": len(cases), "corpus": n_corpus, "resolved": 0, "rfc_agree": 0, "invalid_escape_resolved": 0, "legacy_int_lenient_would_differ": 0}
+
+    def p_wres(v):
+        if v == "WUnres":
+            return UNRES
+        return pjson(v[1])
+
+    for (d, p), (m_res, m_rfc, m_valid, m_legacy) in zip(cases, model):
         canon = {"doc": d, "pointer": p}
         chk.seen(canon, p.count("/") >= 1)
         try:
             impl = canon_impl_value(resolve_pointer(d, p))
         except Exception as exc:  # noqa: BLE001
             impl = f"raises {type(exc).__name__}"
-        if impl != pvalue(m_res):
-            chk.disagree("transforms.resolve_pointer vs Model_C10.resolve_pointer", canon, impl, pvalue(m_res))
-            # the tie is broken: ask the property oracle directly
-            ref = rfc_or_unres(d, p)
-            if impl != ref and not py_lenient_hit(d, p) and not re.search(r"~(?![01])", p):
-                chk.fail("resolve_pointer differs from RFC 6901 on a pointer with canonical tokens", canon, {"implementation": impl, "rfc6901": ref})
-            continue
         ref = rfc_or_unres(d, p)
+        if impl != p_wres(m_res):
+            chk.disagree("transforms.resolve_pointer vs Model_C10.resolve_pointer", canon, impl, p_wres(m_res))
+            # the tie is broken: ask the property oracle directly
+            if impl != ref and not re.search(r"~(?![01])", p) and not str(impl).startswith("raises"):
+                chk.fail("resolve_pointer differs from RFC 6901 on a pointer with valid escapes", canon, {"implementation": impl, "rfc6901": ref})
+            continue
         if ref != pvalue(m_rfc):
             chk.disagree("strict RFC 6901 evaluator (harness) vs Model_C10.rfc6901", canon, ref, pvalue(m_rfc))
             continue
+        # regression sentinel: where the int()-lenient resolver of before commit 5f4626e6 would differ from today's answer
+        stats["legacy_int_lenient_would_differ"] += pvalue(m_legacy) != impl
         stats["resolved"] += impl != UNRES
         if impl == ref:
             stats["rfc_agree"] += 1
             continue
-        stats["lenient"] += 1
-        # the region predicate of the model must cover it (C10_pointer_rfc6901_partial), and the Python mirror must say the same
-        if not m_len:
-            chk.disagree("resolve_pointer differs from RFC 6901 outside the model's lenient region", canon, {"impl": impl, "rfc": ref}, m_len)
-        chk.fail("resolve_pointer resolves a pointer RFC 6901 rejects", canon, {"implementation": impl, "rfc6901": ref}, region="pointer_lenient")
+        # C10_pointer_rfc6901_partial: a difference needs an invalid escape
+        if str(impl).startswith("raises"):
+            chk.fail("resolve_pointer raises instead of answering UNRESOLVABLE", canon, {"implementation": impl, "rfc6901": ref})
+        elif re.search(r"~(?![01])", p):
+            stats["invalid_escape_resolved"] += 1
+            if m_valid:
+                chk.disagree("model says the escapes are valid, the harness says they are not", canon, p, m_valid)
+            chk.fail("resolve_pointer resolves a pointer with an invalid escape", canon, {"implementation": impl, "rfc6901": ref}, region="pointer_invalid_escape")
+        else:
+            chk.fail("resolve_pointer differs from RFC 6901 on a pointer with valid escapes (array index leniency is back?)", canon,
+                     {"implementation": impl, "rfc6901": ref})
     chk.stages["correspondence_pointers"] = stats
 
     # escape / unescape through the real schema objects
@@ -1211,11 +1216,8 @@ def ref_nested(e, c, url):
     the whole is UNRESOLVABLE as soon as one leaf is.  _Skip = a leaf outside the clean fragment (finding regions, exceptions)."""
     def leaf(s):
         r = ref_evaluate(s, c, url)
-        if r is None or r[0] != "value" or r[1] == OPAQUE or expr_region(s, c) not in (None, "pointer_lenient"):
+        if r is None or r[0] != "value" or r[1] == OPAQUE or expr_region(s, c) is not None:
             raise _Skip
-        for kind, x in ref_parse_value(s) or []:
-            if kind == "expr" and x[0].endswith("body") and x[1] and re.search(r"/(?!0(/|$)|[1-9][0-9]*(/|$))[-+ _0-9]+(/|$)", x[1]):
-                raise _Skip  # a pointer token the implementation reads leniently (finding F1)
         if "#" in s and ref_parse_bare(s) is None and any(k == "text" and "#" in x for k, x in (ref_parse_value(s) or [])):
             raise _Skip
         return r[1]
@@ -1834,7 +1836,12 @@ def witness_fails(w) -> bool:
     if kind == "pointer":
         from schemathesis.core.transforms import resolve_pointer
 
-        return canon_impl_value(resolve_pointer(w["doc"], w["pointer"])) != rfc_or_unres(w["doc"], w["pointer"])
+        pointer = w["pointer"] if "pointer" in w else w["pointer_prefix"] + w["repeat"] * w["times"]
+        try:
+            got = canon_impl_value(resolve_pointer(w["doc"], pointer))
+        except Exception as exc:  # noqa: BLE001
+            got = f"raises {type(exc).__name__}"
+        return got != rfc_or_unres(w["doc"], pointer)
     if kind == "live_links":
         # fixed finding: a short stateful run must send at least one link-derived request (without any harness shim)
         from harness.engine_util import run_engine
